@@ -174,7 +174,8 @@ func readHeader(f *os.File) (*header, error) {
 }
 
 // Extract the logical size of a v2 cas blob from rc, and return that
-// size along with an equivalent io.ReadCloser to rc.
+// size along with an equivalent io.ReadCloser to rc. If an error is
+// returned then rc has been closed.
 func ExtractLogicalSize(rc io.ReadCloser) (io.ReadCloser, int64, error) {
 
 	// Read the first part of the header: magic number (4 bytes),
@@ -184,9 +185,11 @@ func ExtractLogicalSize(rc io.ReadCloser) (io.ReadCloser, int64, error) {
 
 	n, err := io.ReadFull(rc, earlyHeader)
 	if err != nil {
+		_ = rc.Close()
 		return nil, -1, err
 	}
 	if n != 16 {
+		_ = rc.Close()
 		return nil, -1, fmt.Errorf("tried to read 16 header bytes, only read %d", n)
 	}
 
@@ -194,9 +197,11 @@ func ExtractLogicalSize(rc io.ReadCloser) (io.ReadCloser, int64, error) {
 	br := bytes.NewReader(earlyHeader[8:])
 	err = binary.Read(br, binary.LittleEndian, &uncompressedSize)
 	if err != nil {
+		_ = rc.Close()
 		return nil, -1, err
 	}
 	if uncompressedSize <= 0 {
+		_ = rc.Close()
 		return nil, -1, fmt.Errorf("expected blob to have positive size, found %d",
 			uncompressedSize)
 	}
